@@ -126,6 +126,14 @@ package keeper
 //@ func (k Keeper) GetRandomValidators$lit0
 //@ maintains len(valOperators) == len(valPowers)
 //@ maintains forall j :: 0 <= j && j < len(valOperators) ==> vstatus(Store_oracle, valOperators[j]).IsActive
+// the callback never asks the iteration to stop (IterateBondedValidatorsByPower ends early only when it returns
+// true): every bonded validator is visited, and every visited oracle-active one is collected, with its tokens
+//@ ensures !stop
+//@ ensures (let op = ext("ValidatorI.GetOperator", val) in
+//@     ((bech32ok(op) && vstatus(Store_oracle, bech32addr(op)).IsActive) ==>
+//@         len(valOperators) == old(len(valOperators)) + 1 && valOperators[len(valOperators) - 1] == bech32addr(op)
+//@         && len(valPowers) == old(len(valPowers)) + 1 && valPowers[len(valPowers) - 1] == ext("ValidatorI.GetTokens", val))
+//@     && (!(bech32ok(op) && vstatus(Store_oracle, bech32addr(op)).IsActive) ==> valOperators == old(valOperators) && valPowers == old(valPowers)))
 
 // Exactly `size` validators, every one of them oracle-active at that moment, or an error when fewer than
 // `size` are eligible.
